@@ -1,4 +1,64 @@
-(* C20 - placeholder while proofs are being written *)
-From BFG Require Import Base.Chars Shell.WinQuote Shell.Msvcrt.
-Theorem C20_tmp : True. Proof. exact I. Qed.
-Print Assumptions C20_tmp.
+(* C20 - Windows command lines and MSBuild solutions are well-formed and stable.
+   Only statements; proofs live in theories/. *)
+From BFG Require Import Base.Chars Shell.WinQuote Shell.Msvcrt Shell.WinQuoteProofs.
+Local Open Scope N_scope.
+
+(* What windows.join writes is read back by the Microsoft C runtime argument rules as exactly the
+   arguments: for every classification [us] of non-ASCII whitespace, every variant [dd] of the
+   double-double-quote rule, every argument list in the domain.  [win_ok] only excludes arguments
+   that end in backslash + newline (the regex end anchor also matches before a final newline);
+   cmd.exe metacharacters are allowed here. *)
+Theorem C20_msvcrt_rt : forall us dd args,
+  Forall (fun s => win_ok s = true) args -> msvcrt_parse dd (join us args) = args.
+Proof. exact msvcrt_join. Qed.
+Print Assumptions C20_msvcrt_rt.
+
+(* the domain of the property statement (no NUL / CR / LF) lies inside the guard *)
+Theorem C20_msvcrt_rt_no_newline : forall us dd args,
+  Forall (fun s => ~ In c_nl s) args -> msvcrt_parse dd (join us args) = args.
+Proof. exact msvcrt_join_no_newline. Qed.
+Print Assumptions C20_msvcrt_rt_no_newline.
+
+(* the guard is tight: outside it the written text does not denote the argument *)
+Example C20_guard_tight :
+  win_ok [97; c_bs; c_nl] = false /\
+  msvcrt_parse DDpost2008 (join (fun _ => false) [[97; c_bs; c_nl]]) = [[97; c_bs; c_bs; c_nl]].
+Proof. split; reflexivity. Qed.
+
+(* quoting a jbos of alternating str / shell_literal bits denotes the concatenation, in any context *)
+Theorem C20_jbos_concat : forall us dd ep bits,
+  bits <> [] -> jbos_ok false bits = true ->
+  exists t e, quote_info us ep (SJbos bits) = Some (t, e) /\
+    (forall cur rest, starts_dq rest = false ->
+       mparse dd false 0 cur (t ++ rest) = mparse dd false 0 (Some (getcur cur ++ jbos_denotes bits)) rest) /\
+    msvcrt_parse dd t = [jbos_denotes bits].
+Proof. exact msvcrt_jbos. Qed.
+Print Assumptions C20_jbos_concat.
+
+(* non-vacuity: an argument list with blanks, quotes, backslash runs before quotes and at the end,
+   cmd metacharacters and an empty argument is in the domain and round-trips by computation *)
+Definition ex_args : list str :=
+  [[97; 32; 98]; []; [c_bs]; [97; c_bs; c_bs]; [c_bs; c_bs; c_dq; 97]; [97; c_dq; c_dq]; [38; 60; 124];
+   [67; 58; c_bs; 80; 32; 70; c_bs]; [97; c_bs; 98]; [c_dq]; [9]].
+Example C20_msvcrt_rt_nonvacuous :
+  forallb win_ok ex_args = true /\
+  msvcrt_parse DDpost2008 (join (fun _ => false) ex_args) = ex_args /\
+  msvcrt_parse DDpre2008 (join (fun _ => false) ex_args) = ex_args /\
+  msvcrt_parse DDnone (join (fun _ => false) ex_args) = ex_args.
+Proof. repeat split; vm_compute; reflexivity. Qed.
+
+Example C20_jbos_nonvacuous :
+  let bits := [BLit [45; 73]; BStr [97; 32; 98; c_bs]; BLit [47; 120]; BStr [99; c_dq]] in
+  jbos_ok false bits = true /\
+  quote_info (fun _ => false) false (SJbos bits) =
+    Some ([45; 73; c_dq; 97; 32; 98; c_bs; c_bs; c_dq; 47; 120; c_dq; 99; c_bs; c_dq; c_dq], true) /\
+  jbos_denotes bits = [45; 73; 97; 32; 98; c_bs; 47; 120; 99; c_dq].
+Proof. repeat split; vm_compute; reflexivity. Qed.
+
+(* the three variants of the R model really differ (on text bfg9000 never writes) *)
+Example C20_variants_differ :
+  let t := [c_dq; 97; c_dq; c_dq; 98; 32; 99; c_dq] in
+  msvcrt_parse DDnone t = [[97; 98; 32; 99]] /\
+  msvcrt_parse DDpost2008 t = [[97; c_dq; 98; 32; 99]] /\
+  msvcrt_parse DDpre2008 t = [[97; c_dq; 98]; [99]].
+Proof. repeat split; vm_compute; reflexivity. Qed.
